@@ -11,6 +11,11 @@ use crate::plan::Tier;
 use crate::rng::mix;
 use crate::run::Scratch;
 
+/// Stack of the thread pyxis runs on. The simulator is an optimised build, whose frames are a
+/// few times smaller than those of the unoptimised builds pyxis usually runs as (a build
+/// script, a test): 512 KiB here stands in for Rust's default 2 MiB thread stack there.
+pub const BUILD_STACK: usize = 512 * 1024;
+
 pub fn case_seed(base: u64, property: &str, index: u64) -> u64 {
     mix(mix(base, crate::rng::hash_str(0, property)), index)
 }
@@ -19,10 +24,11 @@ pub fn case_seed(base: u64, property: &str, index: u64) -> u64 {
 /// every parse; a short-lived thread keeps workers from bloating) and evaluates its oracle.
 pub fn run_case(scratch: &mut Scratch, case: &Case, index: u64) -> Option<(Verdict, CaseReport)> {
     std::thread::scope(|s| {
-        // pyxis itself runs on a thread with Rust's default stack (2 MiB): what it needs must
+        // pyxis itself runs on a thread with a small stack (see BUILD_STACK): what it needs must
         // fit in there, an overflow aborts the process and is reported as a killed case. The
         // harness's own work (models, syn over the output) gets a roomy stack.
         let results = std::thread::Builder::new()
+            .stack_size(BUILD_STACK)
             .spawn_scoped(s, || execute(scratch, case))
             .expect("spawn build thread")
             .join()
